@@ -31,8 +31,15 @@ def _trace_sig(t):
 def _batch(spec, samples=None):
     import mudslide
     model = mudslide.models.scattering_models[spec["model"]]()
-    gen = mudslide.TrajGenConst(spec["x0"], spec["k"], 0, seed=spec["seed"])
     kw = dict(samples=samples or spec["samples"], dt=spec["dt"], bounds=[-spec["box"], spec["box"]], max_steps=spec["maxsteps"])
+    if spec.get("_arrays") is not None:
+        # the user's OWN arrays (position, momentum, a complex density matrix as initial state), handed to every run and every
+        # batch member: "the same initial conditions" means these objects, unchanged
+        x_, k_, rho_ = spec["_arrays"]
+        gen = mudslide.TrajGenConst(x_, k_, rho_, seed=spec["seed"])
+        kw["state0"] = 0
+    else:
+        gen = mudslide.TrajGenConst(spec["x0"], spec["k"], 0, seed=spec["seed"])
     if spec["cls"] == "EvenSamplingTrajectory":
         kw["spawn_stack"] = spec["stack"]
         kw["samples"] = 1
@@ -47,6 +54,11 @@ def oracle_repro(args):
     import random as pyrandom
     spec = dict(args)
     # "from seeds": nothing may come from the process-wide generators; they are put in different states before each run
+    keep = None
+    if spec.get("array_state") and spec["cls"] != "EvenSamplingTrajectory":
+        spec["_arrays"] = (np.array([float(spec["x0"])]), np.array([float(spec["k"])]),
+                           np.array([[0.6, 0.3 + 0.1j], [0.3 - 0.1j, 0.4]], dtype=np.complex128))
+        keep = [np.array(v) for v in spec["_arrays"]]
     np.random.seed(12345)
     pyrandom.seed(12345)
     a = _batch(spec)
@@ -56,6 +68,10 @@ def oracle_repro(args):
     problems = []
     if len(a) != len(b) or not all(_same(x, y) for x, y in zip(a, b)):
         problems.append("two runs with identical inputs differ")
+    if keep is not None and not all(np.array_equal(u, v) for u, v in zip(keep, spec["_arrays"])):
+        problems.append("the runs changed the caller's own initial-condition arrays (position, momentum or density matrix)")
+    if keep is not None and len(a) >= 2 and not _same(a[0]["snaps"][0]["density_matrix"], a[1]["snaps"][0]["density_matrix"]):
+        problems.append("batch members do not start from the same density matrix")
     if spec["cls"] != "EvenSamplingTrajectory":
         c = _batch(spec, samples=spec["samples"] + 3)
         if not all(_same(x, y) for x, y in zip(a, c[:len(a)])):
@@ -374,7 +390,11 @@ def run(ctx):
         if (i // 5) % 2 == 1 and cls != "AugmentedFSSH":      # (the A-FSSH collapse is implemented for two states only: `assert nstates == 2`)
             # three states: a hop has two open target channels, the target itself is a random decision
             spec.update(model="super", samples=int(rng.integers(4, 9)), x0=float(-rng.uniform(6, 8)), box=6.0, k=float(rng.uniform(5, 20)))
+        elif (i // 5) % 4 in (0, 2) and cls not in ("EvenSamplingTrajectory", "AdiabaticMD"):
+            spec.update(array_state=True, samples=max(2, spec["samples"]))
+            ctx.count("repro_with_the_callers_own_arrays")
         ok, obs, req, text = oracle_repro(spec)
+        spec.pop("_arrays", None)
         ctx.case(("repro", cls, spec["samples"], spec["model"] == "super"), {"check": "repro", "spec": spec})
         ctx.count("repro:" + cls)
         if not ok:
